@@ -4,6 +4,7 @@ package main
 // (zz_contracts_verif.go) and in /verif/contracts/*.spec (library contracts).
 
 import (
+	"go/types"
 	"fmt"
 	"go/ast"
 	"go/parser"
@@ -74,6 +75,7 @@ type FuncSpec struct {
 	TimeoutS    int
 	Fresh       []string // names of results declared fresh
 	NoFrame     bool
+	UnderLock   string // the caller must hold this monitor lock (field path, e.g. ".lock"); held on entry, still held on return
 	GhostExit   []*GhostAssign
 	Devirt      []ast.Expr // concrete types to which interface calls in this function are resolved
 }
@@ -164,7 +166,7 @@ var clauseKeywords = map[string]bool{
 	"inline": true, "pure": true, "requires": true, "ensures": true, "modifies": true, "panics": true,
 	"ghost": true, "loop": true, "invariant": true, "decreases": true, "unroll": true, "lemma": true,
 	"axiom": true, "package": true, "global": true, "trusted": true, "ghostfield": true, "opaque": true,
-	"timeout": true, "noframe": true, "end": true, "ghostglobal": true, "monitor": true, "ghostexit": true, "devirt": true, "transparent": true,
+	"timeout": true, "noframe": true, "underlock": true, "end": true, "ghostglobal": true, "monitor": true, "ghostexit": true, "devirt": true, "transparent": true,
 }
 
 type specLine struct {
@@ -379,6 +381,9 @@ func recvTypeName(e ast.Expr) (name string, ptr bool) {
 		return recvTypeName(t.X)
 	case *ast.SelectorExpr:
 		return t.Sel.Name, false
+	case *ast.FuncType:
+		// unnamed function type (contract of calls through such values)
+		return types.ExprString(t), false
 	}
 	return "", false
 }
@@ -678,6 +683,8 @@ func (sp *Specs) ParseSpecText(lines []specLine, file, pkgPath string) error {
 				cur.Pure = true
 			case "noframe":
 				cur.NoFrame = true
+			case "underlock":
+				cur.UnderLock = "." + strings.TrimPrefix(strings.TrimSpace(s.rest), ".")
 			case "timeout":
 				cur.TimeoutS, _ = strconv.Atoi(s.rest)
 			case "opaque":
